@@ -50,21 +50,21 @@ SPEC = {
              "due before the end instant and (>= 2 instances or queue < reports), (c) c0 >= 100; distinct = hash of the case."),
     "floors": {
         "TestPhoutHistory/reporters_ge_2": 0.5, "TestPhoutHistory/queue_lt_reports": 0.4, "TestPhoutHistory/ids_on": 0.22,
-        "TestPhoutHistory/ids_off": 0.3, "TestPhoutHistory/negative_field": 0.5, "TestPhoutHistory/field_beyond_2^32": 0.5,
+        "TestPhoutHistory/ids_off": 0.24, "TestPhoutHistory/negative_field": 0.5, "TestPhoutHistory/field_beyond_2^32": 0.5,
         "TestPhoutHistory/tag_special_chars": 0.5, "TestPhoutHistory/several_writes": 0.1, "TestPhoutHistory/duplicate_samples": 0.3,
-        "TestPhoutHistory/report_before_run": 0.2,
-        "TestPhoutHistory/discarded_among_shots": 0.25, "TestPhoutHistory/discarded_among_shots_reporters_ge_2": 0.22,
+        "TestPhoutHistory/report_before_run": 0.16,
+        "TestPhoutHistory/discarded_among_shots": 0.19, "TestPhoutHistory/discarded_among_shots_reporters_ge_2": 0.17,
         "TestPhoutHistory/discarded_among_shots_ids_on": 0.1, "TestPhoutHistory/discarded_ge_20_among_shots_ge_20": 0.05,
         "TestEncoderHistory/drops": 0.3, "TestEncoderHistory/no_drops": 0.15, "TestEncoderHistory/queue_1": 0.2,
         "TestEncoderHistory/kind_jsonlines": 0.3, "TestEncoderHistory/kind_encoder": 0.1, "TestEncoderHistory/kind_closer": 0.1,
         "TestEncoderHistory/reporters_ge_2": 0.5, "TestEncoderHistory/several_writes": 0.1, "TestEncoderHistory/escaped_newline": 0.2,
         "TestEncoderHistory/sink_file": 0.15, "TestEncoderHistory/sink_file_slow_write": 0.03,
-        "TestEncoderFileSink/shape_slow_moments": 0.45, "TestEncoderFileSink/shape_big_bursts": 0.17,
-        "TestEncoderFileSink/slow_write_reached": 0.55, "TestEncoderFileSink/write_after_slow_write": 0.45,
-        "TestEncoderFileSink/write_slower_than_flush_interval": 0.25, "TestEncoderFileSink/chunk_larger_than_buffer": 0.2,
+        "TestEncoderFileSink/shape_slow_moments": 0.3, "TestEncoderFileSink/shape_big_bursts": 0.17,
+        "TestEncoderFileSink/slow_write_reached": 0.39, "TestEncoderFileSink/write_after_slow_write": 0.32,
+        "TestEncoderFileSink/write_slower_than_flush_interval": 0.17, "TestEncoderFileSink/chunk_larger_than_buffer": 0.2,
         "TestEncoderFileSink/chunk_gt_512k": 0.06, "TestEncoderFileSink/chunk_larger_than_buffer_and_slow_write": 0.12,
-        "TestEncoderFileSink/kind_jsonlines": 0.4, "TestEncoderFileSink/drops": 0.08, "TestEncoderFileSink/no_drops": 0.5,
-        "TestEncoderFileSink/reporters_ge_2": 0.4,
+        "TestEncoderFileSink/kind_jsonlines": 0.29, "TestEncoderFileSink/drops": 0.08, "TestEncoderFileSink/no_drops": 0.38,
+        "TestEncoderFileSink/reporters_ge_2": 0.31,
         "TestEncoderBoundary/crossed_4k_multiple": 0.5, "TestEncoderBoundary/output_exact_4k_multiple": 0.25,
         "TestEncoderBoundary/final_flush_only": 0.33, "TestEncoderBoundary/flush_never": 0.2, "TestEncoderBoundary/kind_jsonlines": 0.3,
         "TestEncoderBoundary/kind_encoder": 0.08, "TestEncoderBoundary/kind_closer": 0.1, "TestEncoderBoundary/buffer_default": 0.2,
